@@ -5,5 +5,5 @@ n=$1
 d=/tmp/wt-$n
 git -C /repo worktree add -q --detach $d HEAD
 # debug-free prebuilt dependencies (built once in /tmp/wt-base with CARGO_PROFILE_DEV_DEBUG=0)
-if [ -d /tmp/wt-base/target ]; then cp -al /tmp/wt-base/target $d/target 2>/dev/null || true; fi
+if [ -d /tmp/wt-base/target ]; then cp -al /tmp/wt-base/target $d/target 2>/dev/null || true; find $d/target -name .cargo-lock -delete; fi
 echo $d
